@@ -19,6 +19,25 @@ type Sym struct {
 	Args []*Sym
 	C    *ssa.Const
 	V    ssa.Value
+	Root ssa.Value // for field paths: the parameter / call / cell the path starts from
+}
+
+// Roots returns the distinct roots of all field leaves.
+func (s *Sym) Roots() []ssa.Value {
+	seen := map[ssa.Value]bool{}
+	var out []ssa.Value
+	var rec func(x *Sym)
+	rec = func(x *Sym) {
+		if x.Op == "field" && x.Root != nil && !seen[x.Root] {
+			seen[x.Root] = true
+			out = append(out, x.Root)
+		}
+		for _, a := range x.Args {
+			rec(a)
+		}
+	}
+	rec(s)
+	return out
 }
 
 func (s *Sym) String() string {
@@ -190,9 +209,9 @@ func (c *symCtx) sym(v ssa.Value) *Sym {
 			}
 		}
 		if _, isStruct := derefUnder(x.Type()).(*types.Struct); isStruct {
-			return &Sym{Op: "field", Name: rootTypeName(x.Type()), V: v}
+			return &Sym{Op: "field", Name: rootTypeName(x.Type()), V: v, Root: x}
 		}
-		return &Sym{Op: "param", Name: x.Name(), V: v}
+		return &Sym{Op: "param", Name: x.Name(), V: v, Root: x}
 	case *ssa.Global:
 		return &Sym{Op: "global", Name: x.Name(), V: v}
 	case *ssa.Function:
@@ -273,6 +292,21 @@ func derefUnder(t types.Type) types.Type {
 	return t.Underlying()
 }
 
+func firstRoot(s *Sym) ssa.Value {
+	if s.Root != nil {
+		return s.Root
+	}
+	if s.Op == "call" {
+		return s.V
+	}
+	for _, a := range s.Args {
+		if r := firstRoot(a); r != nil {
+			return r
+		}
+	}
+	return nil
+}
+
 func (c *symCtx) fieldOf(base *Sym, fv *types.Var, v ssa.Value) *Sym {
 	name := "?"
 	if fv != nil {
@@ -280,7 +314,7 @@ func (c *symCtx) fieldOf(base *Sym, fv *types.Var, v ssa.Value) *Sym {
 	}
 	switch base.Op {
 	case "field":
-		return &Sym{Op: "field", Name: base.Name + "." + name, V: v}
+		return &Sym{Op: "field", Name: base.Name + "." + name, V: v, Root: base.Root}
 	case "phi":
 		var args []*Sym
 		for _, a := range base.Args {
@@ -288,9 +322,9 @@ func (c *symCtx) fieldOf(base *Sym, fv *types.Var, v ssa.Value) *Sym {
 		}
 		return mkPhi(args)
 	case "elem":
-		return &Sym{Op: "field", Name: base.String() + "." + name, V: v}
+		return &Sym{Op: "field", Name: base.String() + "." + name, V: v, Root: firstRoot(base)}
 	case "call":
-		return &Sym{Op: "field", Name: base.String() + "." + name, V: v}
+		return &Sym{Op: "field", Name: base.String() + "." + name, V: v, Root: base.V}
 	case "un":
 		if base.Name == "&" {
 			return c.fieldOf(base.Args[0], fv, v)
